@@ -137,7 +137,8 @@ def _run_chunk(args):
                     "harness|%s" % type(e).__name__,
                     "harness raised: " + "".join(traceback.format_exception(e))[-1500:])
         k = o.key if o.key is not None else case
-        res.append((o.cls, o.nontrivial, case_hash(k), o.viols, o.extra, lo + i))
+        fam = case[0] if isinstance(case, (tuple, list)) and case and isinstance(case[0], str) else ""
+        res.append(((fam + ":" + o.cls) if fam else o.cls, o.nontrivial, case_hash(k), o.viols, o.extra, lo + i))
     return res
 
 
